@@ -111,7 +111,8 @@ def main(argv=None):
         flags = doc["case"].get("python_flags") if isinstance(doc.get("case"), dict) else None
         if flags == "-O" and not sys.flags.optimize:
             # the case was found with assert statements compiled away: replay it in such an interpreter
-            return subprocess.call([sys.executable, "-O", "-X", "faulthandler", "-m", "mc.main", what, "--replay", args.replay], cwd=VERIF)
+            return subprocess.call([sys.executable, "-O", "-X", "faulthandler", "-m", "mc.main", what, "--replay", args.replay], cwd=VERIF,
+                                   env=dict(os.environ, PYTHONHASHSEED="4242"))
 
         def replay_once():
             try:
@@ -153,7 +154,8 @@ def main(argv=None):
 
 def optimized_pass(what, args, mod, tier_legs, total):
     """Re-runs the enumeration legs (not the schedule explorations) in an interpreter started with -O, where `assert`
-    statements are compiled away: a property holds whatever the optimisation level.  Violations found there are reported by
+    statements are compiled away, and under a different string-hash seed: a property holds whatever the optimisation level
+    and the hash randomisation.  Violations found there are reported by
     this run under the signature '<signature>/under-python-O' (their replay files carry the interpreter flag)."""
     from mc import core
 
@@ -164,7 +166,8 @@ def optimized_pass(what, args, mod, tier_legs, total):
         return
     out = os.path.join(VERIF, ".scratch", "optimized", what)
     os.makedirs(out, exist_ok=True)
-    env = dict(os.environ, VERIF_OUT=out, VERIF_OPTIMIZED_PASS="off")
+    # the second pass also runs under another string-hash seed (set/dict-of-str iteration orders differ from the first pass)
+    env = dict(os.environ, VERIF_OUT=out, VERIF_OPTIMIZED_PASS="off", PYTHONHASHSEED="4242")
     cmd = [sys.executable, "-O", "-X", "faulthandler", "-m", "mc.main", what, "--tier", args.tier, "--legs", ",".join(legs)]
     if args.jobs:
         cmd += ["--jobs", str(args.jobs)]
